@@ -130,7 +130,7 @@ def gen_scenario(rng, si):
         cands.append(c)
     shape = rng.choice(['file', 'dir', 'tree', 'several'])
     cb = rng.choice(['none', 'none', 'passive', 'passive', 'passive', 0, 1, 2, 3])
-    damage = rng.random() < 0.08        # a local file changes after the torrent object was created
+    damage = rng.random() < 0.15        # a local file changes after the torrent object was created
     own_extra = rng.random() < 0.2      # the torrent's own file entries carry additional fields
     return {'si': si, 'name': name, 'single': single, 'data': data, 'order': order, 'bounds': bounds, 'cands': cands, 'shape': shape, 'cb': cb, 'damage': damage, 'own_extra': own_extra}
 
@@ -268,9 +268,16 @@ def run_one(root, sc, rng, ck, m, model_ok):
     local = dict(sc['data'])
     if sc['damage']:
         r = rng.choice(sc['order'])
-        local[r] = local[r][:-1] if rng.random() < 0.5 else local[r] + b'+'
-        with open(cpath if sc['single'] else os.path.join(cpath, *r), 'wb') as f:
-            f.write(local[r])
+        x = rng.random()
+        fp = cpath if sc['single'] else os.path.join(cpath, *r)
+        if x < 0.6:
+            local[r] = local[r][:-1] if x < 0.3 else local[r] + b'+'
+            with open(fp, 'wb') as f:
+                f.write(local[r])
+        else:
+            # the file disappears after the torrent object was created
+            del local[r]
+            os.remove(fp)
     if sc['own_extra']:
         if sc['single']:
             t.metainfo['info']['md5sum'] = 'a' * 32
@@ -370,7 +377,7 @@ def run_one(root, sc, rng, ck, m, model_ok):
         def path_str(name, rel, c=None):
             # the identity of a listed file: the name and the path components as stored (a component may hold a separator)
             return repr((name,) + (comps(c, rel) if c is not None else tuple(rel)))
-        for c in sc['cands'] + [{'name': sc['name'], 'data': local}]:
+        for c in sc['cands'] + [{'name': sc['name'], 'data': local}, {'name': sc['name'], 'data': sc['data']}]:
             names.setdefault(c['name'], len(names))
             for r in c['data']:
                 strings.add(path_str(c['name'], r, c))
